@@ -364,13 +364,18 @@ def run_tool(workdir, spec, serial):
         json.dump(base_info(spec.get("kind", "segmentation"), spec["info_mesh"]), f)
     ub = spec.get("ub", 0)
     v = (np.array(spec["v"], dtype=np.float64).reshape(-1, 3) / float(1 << ub)).astype(np.float32)
+    pcode = "NIFTI_TYPE_FLOAT32"
+    if spec.get("pdtype") == "int32" and ub == 0:
+        # a point set stored with an integer data type (legal GIfTI): whole millimetres
+        v = np.array(spec["v"], dtype=np.int64).reshape(-1, 3).astype(np.int32)
+        pcode = "NIFTI_TYPE_INT32"
     t = np.array(spec["t"], dtype=np.int64).reshape(-1, 3).astype(np.int32)
     gii = os.path.join(workdir, "in%06d" % serial)
     os.makedirs(gii)
     gii = os.path.join(gii, spec["stem"] + ".gii")
     with silenced():
         nibabel.save(GiftiImage(darrays=[
-            GiftiDataArray(v, intent="NIFTI_INTENT_POINTSET", datatype="NIFTI_TYPE_FLOAT32"),
+            GiftiDataArray(v, intent="NIFTI_INTENT_POINTSET", datatype=pcode),
             GiftiDataArray(t, intent="NIFTI_INTENT_TRIANGLE", datatype="NIFTI_TYPE_INT32")]), gii)
     argv = [gii, root]
     if spec["meshdir_arg"]:
